@@ -127,7 +127,15 @@ def deref_att(op):
         if b.op.symbol == "*":
             bis = "(,%{},{})".format(b.l, b.r)
         else:
-            bis = "(%{},%{},{})".format(b.l, b.r.l, b.r.r)
+            # base+index*scale: the terms come in any order, and
+            # an index with scale 1 is a plain register
+            l, r = b.l, b.r
+            if l._is_eqn or (r._is_reg and r.etype & regtype.STACK):
+                l, r = r, l
+            if r._is_eqn:
+                bis = "(%{},%{},{})".format(l, r.l, r.r)
+            else:
+                bis = "(%{},%{})".format(l, r)
     s = "%s%s%s" % (seg, disp, bis)
     return [(Token.Memory, s)]
 
